@@ -35,7 +35,8 @@ RULE += ' added since: legacy and wide source encodings (utf-16/32) on file path
 ASSUMPTIONS = ["mako-render is driven without --output-encoding (it crashes with that option, outside the statement)",
                "context values are strings so that the command line can pass them"]
 MIN_NONTRIVIAL = 100
-REQUIRED_COUNTERS = ["templates", "paths_compared", "hash_seed_children", "cmdline_runs", "get_def_compared", "module_template_renders", "lookup_variants", "source_checks", "inheriting_get_def_compared", "preprocessor_paths_compared", "lookup_option_routes"]
+RULE += " mako-render started inside the template directory (bare name, ./name, standard input, --template-dir .) for a template that inherits, includes and uses a namespace."
+REQUIRED_COUNTERS = ["templates", "paths_compared", "hash_seed_children", "cmdline_runs", "get_def_compared", "module_template_renders", "lookup_variants", "source_checks", "inheriting_get_def_compared", "preprocessor_paths_compared", "lookup_option_routes", "cmdline_directory_routes"]
 SHARDS = {"quick": 16, "thorough": 32}
 
 _st = {}
@@ -547,6 +548,66 @@ def run_inheriting_get_def(r, res):
         shutil.rmtree(d, ignore_errors=True)
 
 
+def run_cmd_in_directory(res):
+    """mako-render started INSIDE the template's directory - with a bare file name, with ./name, from standard input,
+    with --template-dir . - and from elsewhere with an absolute path: a template that inherits, includes and uses a
+    namespace renders what a TemplateLookup on that directory renders"""
+    d = tempfile.mkdtemp(prefix="c08cwd-")
+    cwd = os.getcwd()
+    try:
+        files = {
+            "layout.html": "<html>${self.body()}|${x}</html>",
+            "part.html": "[part ${x} é世]",
+            "lib.html": '<%def name="hi(a)">hi(${a})</%def>',
+            "main.html": '<%inherit file="layout.html"/><%namespace name="lib" file="lib.html"/>body <%include file="part.html"/> ${lib.hi(x)} café',
+            "plain.html": "plain ${x} café",
+        }
+        for n, t in files.items():
+            with open(os.path.join(d, n), "w", encoding="utf-8") as f:
+                f.write(t)
+        for name in ("main.html", "plain.html"):
+            want = _st["TemplateLookup"](directories=[d]).get_template(name).render_unicode(x="X=1")
+            routes = {
+                "absolute path, started elsewhere": (cwd, [os.path.join(d, name)], None),
+                "bare file name, started in the directory": (d, [name], None),
+                "./name, started in the directory": (d, ["./" + name], None),
+                "standard input, started in the directory": (d, ["-"], files[name]),
+                "--template-dir ., bare file name": (d, ["--template-dir", ".", name], None),
+                "relative path from the parent directory": (os.path.dirname(d), [os.path.join(os.path.basename(d), name)], None),
+            }
+            for route, (where, args, stdin) in routes.items():
+                res.evaluations += 1
+                res.count("cmdline_directory_routes")
+                ofile = os.path.join(d, "out.txt")
+                old_err, old_in = sys.stderr, sys.stdin
+                sys.stderr = io.StringIO()
+                if stdin is not None:
+                    sys.stdin = io.StringIO(stdin)
+                try:
+                    os.chdir(where)
+                    try:
+                        _st["cmd"].cmdline(["--var", "x=X=1", "--output-file", ofile] + args)
+                        with open(ofile, encoding="utf-8") as f:
+                            got = f.read()
+                    except SystemExit:
+                        err = sys.stderr.getvalue().strip()
+                        got = "exit: " + (err.split("\n")[-1] if err else "")
+                    except Exception as e:
+                        got = "%s: %s" % (type(e).__name__, e)
+                finally:
+                    os.chdir(cwd)
+                    sys.stderr, sys.stdin = old_err, old_in
+                    if os.path.exists(ofile):
+                        os.remove(ofile)
+                if got != want:
+                    res.violate("paths-differ-mako-render", "%s via mako-render (%s) gives %r, a TemplateLookup on its directory renders %r" % (name, route, got, want),
+                                witness="mako-render with a lookup on the current directory")
+            res.nontrivial("cmd-in-directory", name)
+    finally:
+        os.chdir(cwd)
+        shutil.rmtree(d, ignore_errors=True)
+
+
 def run_lookup_options(res):
     """every option that Template takes and TemplateLookup takes on its behalf means the same on a template the
     lookup builds (from a file, from put_string, as an <%include> target) as on one constructed directly"""
@@ -745,6 +806,7 @@ def run_case(case):
         run_lookup_variants(common.rng_for(case["seed"], "c08lk", case["index"]), res)
     elif case["kind"] == "lookup-options":
         run_lookup_options(res)
+        run_cmd_in_directory(res)
     elif case["kind"] == "inhdef":
         r = common.rng_for(case["seed"], "c08ig", case["index"])
         for _ in range(5):
